@@ -60,7 +60,7 @@ type Builder struct {
 	NonBaseline int
 	// Groups are the *jen.Group values handed to ...Func callbacks, in order.
 	Groups []*jen.Group
-	refs        map[int]jen.Code
+	refs   map[int]jen.Code
 }
 
 // Callback records how often a user callback ran, and whether it ran before
